@@ -27,3 +27,8 @@
 #[inline] pub fn bit(x: i128, i: u32) -> bool { (x >> i) & 1 == 1 }
 /// the bit pattern (unsigned value) of a signed value
 #[inline] pub fn pat(x: i128, bits: u32) -> i128 { wrap_u(x, bits) }
+/// rotate the `bits`-bit pattern `x` (0 <= x < 2^bits) left by `n mod bits`
+#[inline] pub fn rotl(x: i128, n: u32, bits: u32) -> i128 { let k = n % bits; if k == 0 { x } else { ((x << k) | (x >> (bits - k))) & (m(bits) - 1) } }
+#[inline] pub fn rotr(x: i128, n: u32, bits: u32) -> i128 { let k = n % bits; if k == 0 { x } else { ((x >> k) | (x << (bits - k))) & (m(bits) - 1) } }
+/// bit `i` of a little-endian array of u64 digits
+#[inline] pub fn dbit<const N: usize>(d: &[u64; N], i: u32) -> bool { (d[(i / 64) as usize] >> (i % 64)) & 1 == 1 }
